@@ -1,16 +1,43 @@
 import GorumsV.Props.C12
 import GorumsV.Tie.C09
 import GorumsV.Generated.Exprs
+import GorumsV.Tie.TreeParams
 /-! Tie for C12: the send queue's capacity is the manager option (any capacity: the exiting sender drains it); connection
     facts of Tie/C09; digests of Close / closeNodeConns / RawNode.close / connect / enqueue / sender / receiver / reconnect /
     Multicast / Unicast in Tie/C12Skel.lean; engine close checks in-flight calls, post-Close calls and goroutines. -/
 namespace GorumsV.Tie.C12
 open GorumsV.GoE GorumsV
 theorem sendQCap_good : Generated.ch_sendQCap = .atom "n.mgr.opts.sendBuffer" := by decide
+
+/-! ### no connection outlives Close (model `NodeConn` on the tree's `dial` / `close`) -/
+
+/-- `dial` holds `connMu` throughout, refuses after close and closes the connection it replaces; `close` sets the flag and
+    closes the connection under `connMu` — the four facts, read from node.go on every run -/
+theorem nodeConn_good : Tie.Tree.nodeConnParams.Good := ⟨by decide, by decide, by decide, by decide⟩
+/-- `Manager.Close` calls `close` on every node of the pool, once (`closeOnce`) -/
+theorem mgrClose_good : Generated.mgr_closeReachesEveryNode = true := by decide
+
+theorem tree_closed_no_live (s : NodeConn.St) (h : NodeConn.Reachable Tie.Tree.nodeConnParams s) (hc : s.closed = true) :
+    s.live = [] ∧ s.dialing = false := NodeConnP.closed_no_live _ nodeConn_good s h hc
+theorem tree_live_is_current (s : NodeConn.St) (h : NodeConn.Reachable Tie.Tree.nodeConnParams s) :
+    s.live.length ≤ 1 ∧ ∀ c ∈ s.live, s.conn = some c := NodeConnP.live_is_current _ nodeConn_good s h
+
 end GorumsV.Tie.C12
 section Audit
 open GorumsV.C12
 #print axioms GorumsV.Tie.C12.sendQCap_good
+#print axioms GorumsV.Tie.C12.nodeConn_good
+#print axioms GorumsV.Tie.C12.mgrClose_good
+#print axioms GorumsV.Tie.C12.tree_closed_no_live
+#print axioms GorumsV.Tie.C12.tree_live_is_current
+#print axioms GorumsV.NodeConnP.live_is_current
+#print axioms GorumsV.NodeConnP.closed_no_live
+#print axioms GorumsV.NodeConnP.closed_is_final
+#print axioms GorumsV.NodeConnP.close_idempotent
+#print axioms GorumsV.NodeConnP.needs_closesOld
+#print axioms GorumsV.NodeConnP.needs_checksClosed
+#print axioms GorumsV.NodeConnP.needs_lockedDial
+#print axioms GorumsV.NodeConnP.needs_closeCloses
 #print axioms closed_stuck_means_exited
 #print axioms closed_no_stream
 #print axioms sender_exit_leaves_no_request
